@@ -147,3 +147,110 @@ Proof.
     + destruct t as [[|c t]|]; reflexivity.
     + destruct v; reflexivity.
 Qed.
+
+(* ---- invariant: the clip mask is a byte value, never negative ---- *)
+Definition graph_inv (o : graph) : Prop := 0 <= gr_clip o.
+
+Lemma digits_nonneg base t : forall acc n, 0 < base -> 0 <= acc -> 0 <= fst (digits base t acc n).
+Proof.
+  induction t as [|c r IH]; intros acc n B A; cbn [digits]; [exact A|].
+  destruct (digit_val c) as [d|] eqn:D; [|exact A].
+  destruct (d <? base); [|exact A]. apply IH; [exact B|].
+  assert (0 <= d).
+  { unfold digit_val in D.
+    destruct ((48 <=? c)%N && (c <=? 57)%N) eqn:E1.
+    - apply andb_true_iff in E1 as [E1 _]. apply N.leb_le in E1. inversion D. lia.
+    - destruct ((97 <=? c)%N && (c <=? 122)%N) eqn:E2.
+      + apply andb_true_iff in E2 as [E2 _]. apply N.leb_le in E2. inversion D. lia.
+      + destruct ((65 <=? c)%N && (c <=? 90)%N) eqn:E3; [|discriminate].
+        apply andb_true_iff in E3 as [E3 _]. apply N.leb_le in E3. inversion D. lia. }
+  nia.
+Qed.
+
+Lemma numeral_nonneg base t neg v k : numeral base t = Some (neg, v, k) -> 0 <= v.
+Proof.
+  unfold numeral.
+  set (t1 := skip_space t).
+  destruct (match t1 with 45%N :: r => (true, r, 1) | 43%N :: r => (false, r, 1) | _ => (false, t1, 0) end) as [[ng t2] sg].
+  match goal with |- context [if ?c then _ else _] => idtac end.
+  destruct (if (base =? 0) || (base =? 16)
+            then if match t2 with 48%N :: x :: d :: _ => ((x =? 120)%N || (x =? 88)%N) && is_digit 16 d | _ => false end
+                 then (16, skipn 2 t2, 2)
+                 else if base =? 16 then (16, t2, 0) else match t2 with 48%N :: _ => (8, t2, 0) | _ => (10, t2, 0) end
+            else (base, t2, 0)) as [[b t3] pf] eqn:E.
+  destruct (digits b t3 0 0) as [v0 n0] eqn:D.
+  destruct (n0 =? 0); [discriminate|]. intros H; inversion H; subst.
+  destruct (0 <? b) eqn:B.
+  - pose proof (digits_nonneg b t3 0 0 ltac:(apply Z.ltb_lt; exact B) ltac:(lia)) as P. rewrite D in P. exact P.
+  - (* base <= 0: no digit is below the base, nothing is accumulated *)
+    assert (forall t acc n, fst (digits b t acc n) = acc) as Q.
+    { induction t0 as [|c r IH]; intros acc n; cbn [digits]; [reflexivity|].
+      destruct (digit_val c) as [d|] eqn:DV; [|reflexivity].
+      destruct (d <? b) eqn:L; [|reflexivity].
+      exfalso. apply Z.ltb_lt in L. apply Z.ltb_ge in B.
+      unfold digit_val in DV.
+      destruct ((48 <=? c)%N && (c <=? 57)%N) eqn:E1.
+      + apply andb_true_iff in E1 as [E1 _]. apply N.leb_le in E1. inversion DV. lia.
+      + destruct ((97 <=? c)%N && (c <=? 122)%N) eqn:E2.
+        * apply andb_true_iff in E2 as [E2 _]. apply N.leb_le in E2. inversion DV. lia.
+        * destruct ((65 <=? c)%N && (c <=? 90)%N) eqn:E3; [|discriminate].
+          apply andb_true_iff in E3 as [E3 _]. apply N.leb_le in E3. inversion DV. lia. }
+    specialize (Q t3 0 0). rewrite D in Q. cbn in Q. lia.
+Qed.
+
+Lemma conv_uint_nonneg maxv base t v : conv_uint maxv base t = CVal v -> 0 <= v.
+Proof.
+  unfold conv_uint. destruct t; [discriminate|].
+  destruct (numeral base (n :: t)) as [[[neg m] k]|] eqn:N; [|destruct (all_space (n :: t)); discriminate].
+  destruct (18446744073709551615 <? m); [discriminate|].
+  destruct (neg && negb (m =? 0)); [discriminate|].
+  destruct (maxv <? m); [discriminate|]. intros H; inversion H; subst. eapply numeral_nonneg; eauto.
+Qed.
+
+Lemma src_u8_nonneg s v : src_number NU8 s = CVal v -> 0 <= nv_int v.
+Proof.
+  destruct s as [t o|x|x]; cbn [src_number].
+  - destruct t as [t|]; [|discriminate]. unfold text_number. destruct t as [|c t]; [discriminate|].
+    unfold convert_number. destruct (conv_uint 255 0 (skip_space (c :: t))) eqn:E; try discriminate.
+    intros H; inversion H; subst. cbn [nv_int]. eapply conv_uint_nonneg; eauto.
+  - destruct x; cbn [value_number]; try discriminate.
+    + cbn [int_range]. destruct ((0 <=? z) && (z <=? 255)) eqn:E; [|discriminate].
+      intros H; inversion H; subst. cbn [nv_int]. apply andb_true_iff in E as [E _]. apply Z.leb_le in E. exact E.
+    + destruct (0 <=? z) eqn:E; [|discriminate]. intros H; inversion H; subst. cbn [nv_int]. apply Z.leb_le. exact E.
+  - discriminate.
+Qed.
+
+Lemma clip_bits_nonneg t : forall n, 0 <= n -> 0 <= clip_bits t n.
+Proof.
+  induction t as [|c r IH]; intros n H; cbn [clip_bits]; [exact H|].
+  apply IH. apply Z.lor_nonneg. split; [exact H|].
+  destruct (N.eqb c 120); [lia|]. destruct (N.eqb c 121); [lia|]. destruct (N.eqb c 122); lia.
+Qed.
+
+Lemma graph_inv_def : graph_inv def_graph.
+Proof. unfold graph_inv. cbn. lia. Qed.
+
+Lemma graph_field_inv f s o : graph_inv o -> graph_inv (snd (graph_set_field f s o)).
+Proof.
+  intros IV. destruct f; cbn [graph_set_field];
+    unfold col_field, pt_field, num_field, str_field;
+    try (break_match; cbn [snd]; try exact IV; unfold graph_inv in *;
+         cbn [gr_clip set_gr_fg set_gr_bg set_gr_px set_gr_py set_gr_sx set_gr_sy set_gr_grid set_gr_align set_gr_lpos
+              set_gr_axes set_gr_worlds set_gr_clip]; try exact IV; fail).
+  (* clip *)
+  destruct s as [src|]; [|unfold graph_inv; cbn; lia].
+  destruct (src_number NU8 src) as [e| | |v] eqn:E; cbn [snd]; try exact IV.
+  - destruct (src_str src) as [e2| | |[t|]]; cbn [snd]; try exact IV; unfold graph_inv; cbn [gr_clip set_gr_clip];
+      try (cbn; lia). apply clip_bits_nonneg. lia.
+  - unfold graph_inv. cbn. lia.
+  - unfold graph_inv. cbn [gr_clip set_gr_clip]. eapply src_u8_nonneg; eauto.
+Qed.
+
+Lemma graph_set_inv o other name s : graph_inv o -> graph_inv other ->
+  graph_inv (snd (graph_set o name (resolve s (OGraph other)))).
+Proof.
+  intros IV IO. unfold graph_set. destruct name as [[|c n]|].
+  - destruct s; cbn [resolve snd]; try exact IO; try apply graph_inv_def; break_match; cbn [snd]; auto using graph_inv_def.
+  - destruct (graph_field_of (c :: n)); [apply graph_field_inv; auto|exact IV].
+  - destruct s; cbn [resolve snd]; try exact IO; try exact IV; break_match; cbn [snd]; auto using graph_inv_def.
+Qed.
